@@ -1,0 +1,22 @@
+//go:build verif
+
+package x509
+
+import "github.com/zmap/zcrypto/encoding/asn1"
+
+// ZVRemarshalTBS parses a certificate exactly as ParseCertificate does and re-marshals its
+// tbsCertificate with Raw cleared and the extension list untouched. A certificate whose result equals
+// RawTBSCertificate is "canonically encoded" with respect to this library's encoder.
+func ZVRemarshalTBS(der []byte) ([]byte, error) {
+	var cert certificate
+	rest, err := asn1.Unmarshal(der, &cert)
+	if err != nil {
+		return nil, err
+	}
+	if len(rest) > 0 {
+		return nil, asn1.SyntaxError{Msg: "trailing data"}
+	}
+	tbs := cert.TBSCertificate
+	tbs.Raw = nil
+	return asn1.Marshal(tbs)
+}
